@@ -1,7 +1,13 @@
 import SaModel.Lemmas.C04Unser
 import SaModel.Lemmas.C04Interp
-import SaModel.Build.Finish
-import SaModel.Spec.Interp
+import SaModel.Lemmas.C04CastLv
+import SaModel.Lemmas.C04Schema
+import SaModel.Lemmas.C04Reader
+import SaModel.Lemmas.C04Root
+import SaModel.Lemmas.C04Safe
+import SaModel.Props.C01
+import SaModel.Props.C02
+import SaModel.Props.C08
 /-
 C04 — round trip through a type-traced schema is the identity.
 
@@ -41,51 +47,6 @@ theorem C04_mapping_injective (t : Ty) (v w : Val) (hv : wt t v = true) (hw : wt
   rw [h, b] at a
   exact (Option.some.inj a).symm
 
-/-! ### rows of a set of columns -/
-
-/-- row `i` of the columns `arrs` under the schema `fields`, by the Arrow reading rules -/
-def decodeRow (fields : List Field) (arrs : List Arr) (i : Nat) : R LVal := do
-  let vals ← (fields.zip arrs).mapM fun (f, a) => do
-    let v ← decode a i
-    pure (f.name, v)
-  pure (.struct (LFields.ofList vals))
-
-theorem mapM_unser (t : Ty) : ∀ (vs : List Val), (∀ v ∈ vs, wt t v = true) →
-    (vs.map (lv t)).mapM (unser t) = some (vs.map (norm t))
-  | [], _ => rfl
-  | v :: rest, h => by
-    have h1 := unser_lv t v (h v (by simp))
-    have h2 := mapM_unser t rest (fun w hw => h w (by simp [hw]))
-    simp [List.mapM_cons, h1, h2]
-
-/-! ### the composition theorem -/
-
-/-- **C04 (composition over interfaces).**  `fromType` is the tracer model's entry point and `readTyped` the reader
-model's; `H8`, `H1`, `H2` are the statements of C08, C01 and C02 over those interfaces.  `Hinterp` is the first half
-of the injectivity lemma at the root type; it is *proved* for the constructor set of `interp_ser` (see
-`C04_roundtrip_core_partial` below), and kept as a hypothesis here so that the composition itself is stated for the
-whole grammar. -/
-theorem C04_roundtrip_partial
-    (fromType : TraceOpts → Ty → R (List Field))
-    (readTyped : Ty → List Field → List Arr → R (List Val))
-    (ext : Ext) (o : TraceOpts) (ty : Ty) (vs : List Val) (fields : List Field) (arrs : List Arr)
-    (_H8 : fromType o ty = .ok fields ∧ mappingRoot o ty = some fields)
-    (H1 : toMarrow ext fields (vs.map (ser ty)) = .ok arrs ∧
-          ∀ i (h : i < vs.length), decodeRow fields arrs i = interpRow ext fields (ser ty vs[i]))
-    (H2 : ∀ (lvs : List LVal) (vals : List Val),
-          (∀ i (h : i < lvs.length), decodeRow fields arrs i = .ok lvs[i]) →
-          lvs.mapM (unser ty) = some vals → readTyped ty fields arrs = .ok vals)
-    (Hwt : ∀ v ∈ vs, wt ty v = true)
-    (Hinterp : ∀ v ∈ vs, interpRow ext fields (ser ty v) = .ok (lv ty v)) :
-    toMarrow ext fields (vs.map (ser ty)) = .ok arrs ∧ readTyped ty fields arrs = .ok (vs.map (norm ty)) := by
-  refine ⟨H1.1, ?_⟩
-  apply H2 (vs.map (lv ty)) (vs.map (norm ty))
-  · intro i h
-    have hi : i < vs.length := by simpa using h
-    rw [H1.2 i hi, Hinterp vs[i] (List.getElem_mem hi)]
-    simp
-  · exact mapM_unser ty vs Hwt
-
 /-! ### the first half of the injectivity lemma, and the composition with it discharged -/
 
 /-- **`Spec.interp ∘ ser = lv` at the traced field**, for every option set, on the fragment `frag`: scalars, `()`, unit
@@ -113,24 +74,154 @@ theorem C04_interpRow_partial (ext : Ext) (o : TraceOpts) (n : String) (fs : TFi
   rw [Fields.ofList_toList]
   exact interp_ser ext o (.struct n fs) v false _ false [] hf hw (by simp [mappingDT]) (fun h => h)
 
-/-- **C04 with the injectivity lemma discharged** (record types of the fragment): only the three interface
-hypotheses H8 / H1 / H2 remain. -/
-theorem C04_roundtrip_core_partial
-    (fromType : TraceOpts → Ty → R (List Field))
-    (readTyped : Ty → List Field → List Arr → R (List Val))
-    (ext : Ext) (o : TraceOpts) (n : String) (fs : TFields) (vs : List Val) (fields : List Field) (arrs : List Arr)
-    (H8 : fromType o (.struct n fs) = .ok fields ∧ mappingRoot o (.struct n fs) = some fields)
-    (H1 : toMarrow ext fields (vs.map (ser (.struct n fs))) = .ok arrs ∧
-          ∀ i (h : i < vs.length), decodeRow fields arrs i = interpRow ext fields (ser (.struct n fs) vs[i]))
-    (H2 : ∀ (lvs : List LVal) (vals : List Val),
-          (∀ i (h : i < lvs.length), decodeRow fields arrs i = .ok lvs[i]) →
-          lvs.mapM (unser (.struct n fs)) = some vals → readTyped (.struct n fs) fields arrs = .ok vals)
-    (Hfrag : frag (.struct n fs) = true)
-    (Hwt : ∀ v ∈ vs, wt (.struct n fs) v = true) :
-    toMarrow ext fields (vs.map (ser (.struct n fs))) = .ok arrs ∧
-      readTyped (.struct n fs) fields arrs = .ok (vs.map (norm (.struct n fs))) :=
-  C04_roundtrip_partial fromType readTyped ext o (.struct n fs) vs fields arrs H8 H1 H2 Hwt
-    (fun v hv => C04_interpRow_partial ext o n fs v fields Hfrag (Hwt v hv) H8.2)
+/-! ### the round trip through the real models -/
+
+/-- the tracer's result is the documented mapping of C04: `Props.C08.C08_from_type` (∀ types, ∀ options) composed with
+`fromTypeSpec_eq` (the two statements of the documentation agree) -/
+theorem C04_fromType_mapping (c : Trace.Code) (O : Trace.Options) (h0 : O.overwrites = []) (t : Ty) (hn : noEnum t = true)
+    (fields : List Field) (h : Trace.fromType c O (toTraceTy t) = .ok fields) :
+    mappingRoot (viewOpts O) t = some fields := by
+  have hag := Props.C08.C08_from_type c O (toTraceTy t)
+  rw [h] at hag
+  cases hs : Trace.Spec.fromTypeSpec O (toTraceTy t) with
+  | ok fields' =>
+    rw [hs] at hag
+    have : fields = fields' := hag
+    subst this
+    exact fromTypeSpec_eq O h0 t hn fields hs
+  | error e => rw [hs] at hag; exact absurd hag (by simp [Lemmas.C08.Agree])
+
+/-- **C04, through the real models** (`Trace.fromType`, `Build.toMarrow`, the reader model `Read.readAs` behind
+`readRecord` = `Deserializer::from_marrow` + item `i` + `T::deserialize`).
+
+For every record type `t = struct n fs` of the fragment `frag` (scalars, `()`, unit structs, Option, newtype structs,
+Vec, maps, structs with `rename` / `skip_serializing_if`; at least one field), all tracing options `O` without
+overwrites (any budget, every flag), every code variant `c` of the tracer, every batch `vs` of well-typed values:
+
+  if    `from_type` returns `fields`                        (`Trace.fromType c O (toTraceTy t) = ok fields`)
+  and   serializing the batch against them returns `arrs`   (`toMarrow ext fields (vs.map (ser t)) = ok arrs`)
+  then  reading record `i` back at the type's own target returns the value, normalised:
+        `readRecord (toTarget t) fields arrs i = ok (dvalOf t (norm t vs[i]))`   for every `i < vs.length`.
+
+`norm` is the documented collapse of `Some(None)` / `Some(())` to `None`, the identity elsewhere; `dvalOf` is the
+rendering of a typed value as the visitor calls of a typed read.
+
+Discharged here (were hypotheses H8 / H1 / H2 / Hinterp of the former composition over interfaces):
+  H8  `C04_fromType_mapping` (C08 + `fromTypeSpec_eq`);  H1  `Props.C01.C01_build_decode` + `Props.C03.C03_wf`, their
+  schema side conditions `Map2F`, `SchemaOKF`, `coveredF` by `mappingFields_side` (shape of traced schemas), `noRaw`,
+  `rawOK`, `SValOK` by `ser_ok` (shape of derived serializations);  H2  `Props.C02.read_typed_decode` with `new … = ok`
+  by `newFields_of_wf`, `utf8Ok` by `utf8Ok_lv`, `cast … = must …` by `cast_lv`;  Hinterp  `C04_interpRow_partial`.
+
+`_partial`, remaining hypotheses:
+  `hsafe`  C01's `Safe` on the fresh builder: holds for every traced schema without dictionary-encoded strings below a
+           nullable struct (C01's known exclusion `dict_placeholder_unstable`); not derived here from `O`;
+  `hphys`  `Read.physical`: dictionary value counts fit `i64` (true of any array in memory; Lean lists are unbounded);
+  `hext`   the external chrono parsers return values in range (`ExtOK`; irrelevant for traced schemas, asked by C03_wf);
+and the grammar: tuples / tuple structs / arrays and enums are not in `frag` (see `C04_interp_ser_partial`); the
+completeness direction (`toMarrow` never refuses a well-typed batch) is not proved. -/
+theorem C04_roundtrip_partial (c : Trace.Code) (O : Trace.Options) (ext : Ext) (n : String) (fs : TFields) (vs : List Val)
+    (fields : List Field) (arrs : List Arr)
+    (h0 : O.overwrites = []) (hfrag : frag (.struct n fs) = true) (hne : fs ≠ .nil)
+    (hwt : ∀ v ∈ vs, wt (.struct n fs) v = true)
+    (hext : Lemmas.C03.ExtOK ext)
+    (hsafe : ∀ root0, newRoot fields = .ok root0 → Safe root0)
+    (hphys : ∀ a ∈ arrs, Read.physical a = true)
+    (hft : Trace.fromType c O (toTraceTy (.struct n fs)) = .ok fields)
+    (htm : toMarrow ext fields (vs.map (ser (.struct n fs))) = .ok arrs) :
+    ∀ (i : Nat) (hi : i < vs.length),
+      readRecord (toTarget (.struct n fs)) fields arrs i = .ok (dvalOf (.struct n fs) (norm (.struct n fs) vs[i])) := by
+  intro i hi
+  let t : Ty := .struct n fs
+  let o := viewOpts O
+  have hn : noEnum t = true := frag_noEnum t hfrag
+  have hroot : mappingRoot o t = some fields := C04_fromType_mapping c O h0 t hn fields hft
+  have hfields : fields = (mappingFields o fs).toList := by
+    simp [t, mappingRoot, mappingDT] at hroot; exact hroot.symm
+  have hofl : Fields.ofList fields = mappingFields o fs := by rw [hfields]; exact Fields.ofList_toList _
+  -- side conditions of C01 / C03
+  have hside := sideFs_toList (mappingFields o fs) (mappingFields_side o fs (by simpa [t, noEnum] using hn))
+  rw [← hfields] at hside
+  have hser : ∀ x ∈ vs.map (ser t), Build.noRaw x = true ∧ Lemmas.C03.SValOK x := by
+    intro x hx
+    obtain ⟨v, hv, rfl⟩ := List.mem_map.mp hx
+    exact ser_ok t v (hwt v hv)
+  have hraw : ∀ x ∈ vs.map (ser t), Build.rawOK x = true := fun x hx => Build.noRaw_rawOK x (hser x hx).1
+  obtain ⟨hlen, cols, hc1, hc2, hc3, hc4⟩ := Props.C01.C01_build_decode ext fields (vs.map (ser t)) arrs
+    (fun f hf => (hside f hf).1) (fun f hf => (hside f hf).2.1)
+    (List.all_eq_true.mpr fun f hf => (hside f hf).2.2) hsafe (fun x hx => (hser x hx).1) htm
+  obtain ⟨_, hwf⟩ := Props.C03.C03_wf ext fields (vs.map (ser t)) arrs
+    (fun f hf => (hside f hf).1) (fun f hf => (hside f hf).2.1) hsafe hext hraw (fun x hx => (hser x hx).2) htm
+  have hrl : (vs.map (ser t)).length = vs.length := List.length_map _
+  -- the root reader
+  have hcols : Spec.wfFields (mappingFields o fs) (zipCols fields arrs) vs.length = true := by
+    rw [← hofl]
+    exact zip_wf vs.length fields arrs hlen (fun j f a hf ha => by
+      have := hwf j f a hf ha; rw [hrl] at this; exact this)
+  have hnewF : Read.newFields Read.Fixes.all (zipCols fields arrs) = .ok () :=
+    newFields_of_wf o fs _ _ (by simpa [t, noEnum] using hn) hcols
+  have hnonempty : arrs ≠ [] := by
+    intro he
+    rw [he] at hlen
+    have : fields = [] := List.length_eq_zero_iff.mp hlen.symm
+    rw [this] at hfields
+    cases fs with
+    | nil => exact hne rfl
+    | cons n' s' t' r' =>
+      rcases hm : mappingDT o t' with ⟨dt, nb, md⟩
+      simp [mappingFields, hm, Fields.toList] at hfields
+  have hlens : ∀ x ∈ arrs.map Read.vlen, x = vs.length := by
+    rw [zip_vlen fields arrs hlen hnewF]
+    intro x hx
+    obtain ⟨a, ha, rfl⟩ := List.mem_map.mp hx
+    obtain ⟨j, hj, rfl⟩ := List.getElem_of_mem ha
+    have hjf : j < fields.length := by omega
+    have := (hwf j fields[j] arrs[j] (List.getElem?_eq_getElem hjf) (List.getElem?_eq_getElem hj)).2
+    rw [← (Spec.decodeAll_spec arrs[j]).1, this, hrl]
+  have hacc : Access.new true fields.length (arrs.map Read.vlen) = .ok vs.length :=
+    access_new vs.length _ _ (by simp [hlen]) (by simpa using hnonempty) hlens
+  -- the decoded record is the logical value of the input
+  have hinterp := C04_interpRow_partial ext o n fs vs[i] fields hfrag (hwt _ (List.getElem_mem hi)) hroot
+  have hrow := hc4 i (by rw [hrl]; exact hi)
+  rw [List.getElem_map, hinterp] at hrow
+  have hdec : Spec.decodeAt (rootArr fields arrs vs.length) i = .ok (lv t vs[i]) := by
+    have hz := zip_decode i fields arrs cols hc1 hc2 (fun c' hc' => by rw [hc3 c' hc', hrl]; exact hi)
+    simp only [rootArr, Spec.decodeAt, hi, if_true, Spec.withValidity, Spec.isValid, hz, bind, Except.bind, pure, Except.pure]
+    simp only [Except.ok.injEq] at hrow
+    simpa using hrow.symm
+  have hwfroot : Spec.wf (.struct (mappingFields o fs)) false (rootArr fields arrs vs.length) = true := by
+    simp [rootArr, Spec.wf, Spec.validityOk, hcols]
+  have hcast := cast_lv o t vs[i] (rootArr fields arrs vs.length) (.struct (mappingFields o fs)) false [] false hfrag
+    (hwt _ (List.getElem_mem hi)) (by simp [t, mappingDT]) hwfroot
+  have hread := Props.C02.read_typed_decode (toTarget t) (rootArr fields arrs vs.length) i (lv t vs[i]) _ hdec
+    (by simpa [rootArr, Read.new] using hnewF)
+    (by simpa [rootArr, Read.physical] using zip_physical fields arrs hphys)
+    (utf8Ok_lv t vs[i]) hcast
+  simp only [readRecord, hacc, bind, Except.bind]
+  have hnew : Read.new Read.Fixes.all (rootArr fields arrs vs.length) = .ok () := by
+    simpa [rootArr, Read.new] using hnewF
+  rw [hnew]
+  simp only [Access.getIdx, ge_iff_le, Nat.not_le.mpr hi, if_false]
+  exact hread
+
+/-- `C04_roundtrip_partial` with C01's `Safe` hypothesis DERIVED from the shape of the traced schema, for tracing options
+without `string_dictionary_encoding` (then a traced schema of the fragment contains no Dictionary, `safe_of_traced`). -/
+theorem C04_roundtrip_nodict_partial (c : Trace.Code) (O : Trace.Options) (ext : Ext) (n : String) (fs : TFields) (vs : List Val)
+    (fields : List Field) (arrs : List Arr)
+    (h0 : O.overwrites = []) (hd : O.string_dictionary_encoding = false)
+    (hfrag : frag (.struct n fs) = true) (hne : fs ≠ .nil)
+    (hwt : ∀ v ∈ vs, wt (.struct n fs) v = true)
+    (hext : Lemmas.C03.ExtOK ext)
+    (hphys : ∀ a ∈ arrs, Read.physical a = true)
+    (hft : Trace.fromType c O (toTraceTy (.struct n fs)) = .ok fields)
+    (htm : toMarrow ext fields (vs.map (ser (.struct n fs))) = .ok arrs) :
+    ∀ (i : Nat) (hi : i < vs.length),
+      readRecord (toTarget (.struct n fs)) fields arrs i = .ok (dvalOf (.struct n fs) (norm (.struct n fs) vs[i])) := by
+  have hn : noEnum (.struct n fs) = true := frag_noEnum _ hfrag
+  have hroot := C04_fromType_mapping c O h0 _ hn fields hft
+  have hfields : fields = (mappingFields (viewOpts O) fs).toList := by
+    simp [mappingRoot, mappingDT] at hroot; exact hroot.symm
+  exact C04_roundtrip_partial c O ext n fs vs fields arrs h0 hfrag hne hwt hext
+    (safe_of_traced (viewOpts O) hd fs (by simpa [noEnum] using hn) fields hfields) hphys hft htm
 
 /-! ### non-vacuity -/
 
@@ -164,6 +255,43 @@ def exFragVal : Val :=
     (.cons (.map (.cons (.str "k") (.char 65) .nil)) (.cons .none .nil))))
 example : frag exFragRoot = true ∧ wt exFragRoot exFragVal = true := by decide +kernel
 example : frag exRoot = false := by decide +kernel
+
+/-! non-vacuity of `C04_roundtrip_partial`: `exFragRoot` (nested Option, Vec of Option of struct, map, skipped field,
+newtype over bytes) traced under `map_as_struct = false`, a batch of two values; every hypothesis is met (computed),
+serialization succeeds, and the theorem gives the read results -/
+def exO : Trace.Options := { map_as_struct := false, sequence_as_large_list := false }
+def exFragVal2 : Val :=
+  .struct (.cons (.some (.some (.int 7))) (.cons (.vec .nil) (.cons (.map .nil) (.cons (.some (.newtype (.bytes [1, 2]))) .nil))))
+def exBatch : List Val := [exFragVal, exFragVal2]
+def exFields : List Field := match Trace.fromType .fixed exO (toTraceTy exFragRoot) with | .ok fs => fs | .error _ => []
+def exArrs : List Arr := match toMarrow {} exFields (exBatch.map (ser exFragRoot)) with | .ok a => a | .error _ => []
+
+theorem exExtOK : Lemmas.C03.ExtOK {} where
+  date32 := by intro s v h; cases h
+  date64 := by intro s v h; cases h
+  time := by intro u s v h; cases h
+  timestamp := by intro u utc s v h; cases h
+  duration := by intro u s v h; cases h
+
+theorem exTrace : Trace.fromType .fixed exO (toTraceTy exFragRoot) = .ok exFields := by decide +kernel
+theorem exBuild : toMarrow {} exFields (exBatch.map (ser exFragRoot)) = .ok exArrs := by decide +kernel
+
+example : exFields.length = 4 ∧ exArrs.length = 4 ∧ (∀ v ∈ exBatch, wt exFragRoot v = true) ∧
+    (∀ a ∈ exArrs, Read.physical a = true) ∧ norm exFragRoot exFragVal ≠ exFragVal := by decide +kernel
+
+example : ∀ (i : Nat) (hi : i < exBatch.length),
+    readRecord (toTarget exFragRoot) exFields exArrs i = .ok (dvalOf exFragRoot (norm exFragRoot exBatch[i])) := by
+  exact C04_roundtrip_nodict_partial .fixed exO {} "Root" _ exBatch exFields exArrs rfl rfl (by decide +kernel) (by simp)
+    (by decide +kernel) exExtOK (by decide +kernel) exTrace exBuild
+
+/-- what comes back for the first record: `a: Some(None)` has collapsed to `None` (the documented normalisation), the
+rest is the input -/
+example : readRecord (toTarget exFragRoot) exFields exArrs 0 =
+    .ok (.map (.cons (nameKey "a") .none
+      (.cons (nameKey "v") (.seq (.cons (.some (.map (.cons (nameKey "x") (.int .i16 3)
+          (.cons (nameKey "y") (.str .owned [97, 98]) .nil)))) (.cons .none .nil)))
+      (.cons (nameKey "m") (.map (.cons (.str .owned [107]) (.char 65) .nil))
+      (.cons (nameKey "n") .none .nil))))) := by decide +kernel
 
 example : wt exRoot exVal1 = true ∧ wt exRoot exVal2 = true := by decide +kernel
 /-- the documented collapse really happens (`Some(None)` ↦ `None`) and only there -/
